@@ -495,7 +495,11 @@ where
     c.wr.raw(",\"lossy\":");
     c.wr.out1(&pf_val(|| T::lossy_from(a)));
     // From<fixed> for the float type, where the crate provides it (small types: the conversion is exact)
-    let fr: Option<Out> = if T::BITS == 32 { a.f32_from().map(|v| Out::V(Num::u(v.to_bits() as u128))) } else { a.f64_from().map(|v| Out::V(Num::u(v.to_bits() as u128))) };
+    let fr: Option<Out> = match (T::BITS, T::FT) {
+        (32, "32") => a.f32_from().map(|v| Out::V(Num::u(v.to_bits() as u128))),
+        (64, "64") => a.f64_from().map(|v| Out::V(Num::u(v.to_bits() as u128))),
+        _ => None,          // the 16-bit formats of the optional feature (growth G03) have their own route
+    };
     if let Some(o) = fr {
         c.wr.raw(",\"from\":");
         c.wr.out1(&o);
